@@ -27,7 +27,7 @@ theorem pullSpec_fail (f : Facts) (pre sent : Bytes) (e : FErr) (h : e ≠ .ok) 
     cases e <;> simp at h hd ht
 
 /-- success of `pullOnce` on a replica without final file puts a complete file at the final path -/
-theorem pullOnce_ok_complete (f : Facts) (hpo : f.promoteAfterVerdict = true) (content : Bytes) (resume : Bool) {r : Rep} (o : Outcome)
+theorem pullOnce_ok_complete (f : Facts) (hpo : f.orderOK = true) (content : Bytes) (resume : Bool) {r : Rep} (o : Outcome)
     (hr : r.final = none) (hok : (pullOnce H f content resume r o).err = .ok) :
     Complete H content (pullOnce H f content resume r o).rep := by
   obtain ⟨pre, hpre, _, heq⟩ := pullOnce_eq H f hpo content resume o hr
@@ -43,7 +43,7 @@ theorem pullOnce_ok_complete (f : Facts) (hpo : f.promoteAfterVerdict = true) (c
 
 /-- step order: while a `pullOnce` is running — at the point where its write goroutine has finished
 and before any cleanup — the final path is empty or already holds the verified file -/
-theorem pullOnce_mid_good (f : Facts) (hpo : f.promoteAfterVerdict = true) (content : Bytes)
+theorem pullOnce_mid_good (f : Facts) (hpo : f.orderOK = true) (content : Bytes)
     (resume : Bool) {r : Rep} (o : Outcome) (hr : r.final = none) :
     GoodFinal H content (pullOnce H f content resume r o).mid := by
   by_cases hok : (pullOnce H f content resume r o).err = .ok
@@ -61,7 +61,7 @@ theorem pullOnce_mid_good (f : Facts) (hpo : f.promoteAfterVerdict = true) (cont
     apply goodFinal_of_none
     simp [midSpec, hok]
 
-theorem stepOK_any (f : Facts) (hpo : f.promoteAfterVerdict = true) (content : Bytes) :
+theorem stepOK_any (f : Facts) (hpo : f.orderOK = true) (content : Bytes) :
     StepOK H f content (fun _ => True) (fun _ => True) where
   step := by
     intro r o resume _ hr _
@@ -74,7 +74,7 @@ theorem stepOK_any (f : Facts) (hpo : f.promoteAfterVerdict = true) (content : B
 def PartShort (content : Bytes) (r : Rep) : Prop :=
   ∀ p, r.part = some p → p.length < content.length
 
-theorem stepOK_delete (f : Facts) (hpo : f.promoteAfterVerdict = true) (content : Bytes) (hdel : f.deleteRemovesPart = true)
+theorem stepOK_delete (f : Facts) (hpo : f.orderOK = true) (content : Bytes) (hdel : f.deleteRemovesPart = true)
     (hne0 : content ≠ []) :
     StepOK H f content (PartShort content) (fun _ => True) where
   step := by
@@ -149,7 +149,7 @@ theorem fetch_take_prefix {content pre : Bytes} {o : Outcome} (m : Nat)
     rw [hcat, hfull] at hne
     simp at hne
 
-theorem stepOK_prefix (f : Facts) (hpo : f.promoteAfterVerdict = true) (content : Bytes) (hne0 : content ≠ []) :
+theorem stepOK_prefix (f : Facts) (hpo : f.orderOK = true) (content : Bytes) (hne0 : content ≠ []) :
     StepOK H f content (PartPrefix content) NotCorrupt where
   step := by
     intro r o resume hA hr hq
